@@ -481,6 +481,10 @@ def case_hist(hist):
                 model = np.concatenate([model.astype(common).reshape((-1,) + ush), arr.astype(common).reshape((-1,) + ush)])
         elif name == "astype":
             obj, model, cx = obj.astype(np.complex128), model.astype(np.complex128), True
+        elif name == "astype-same":
+            # conversion to the dtype the object already has: still a new, independent object (the receiver is in
+            # `retained`: a later item assignment into the result must not move it)
+            obj = obj.astype(np.asarray(obj.proj_data).dtype)
         elif name == "queries":
             qv, n = run_queries(cls, obj, model, seed, nxt, root_array, cx)
             v += qv
@@ -532,14 +536,19 @@ def case_hist(hist):
             nextops += [["stack"], ["combine"]]
         if not cx:
             nextops.append(["astype"])
+        nextops.append(["astype-same"])
         if "/" not in cls:
             nextops.append(["queries"])          # queries on ideal endpoints (hyperboloid coordinates of null vectors) are C01/C14's
     raw = np.round(np.asarray(obj.proj_data).astype(complex).flatten(), 5) + (0.0 + 0.0j) if not v else None
     # the queries may leave hidden state behind (memoised answers), which no observable summary shows: a state
     # reached after a query is therefore never merged with one reached without
     queried = any(op[0] == "queries" for op in ops)
-    aliased = any(op[0] == "shallow-copy" for op in ops)        # another object may share this one's arrays
-    key = repr((cls, tuple(mshape), cx, queried, aliased, canon_rows(model, 5), None if raw is None else hashlib.sha1(raw.tobytes()).hexdigest()[:12]))
+    # another object may share this one's arrays; WHICH operations may have created the sharing is part of the state
+    aliased = tuple(sorted({op[0] for op in ops if op[0] in ("shallow-copy", "astype-same")}))
+    # an object-producing operation may hand back something that still shares arrays with its receiver: the state
+    # right after such an operation is always expanded once (so that "operate, then edit the result" is explored)
+    producer = ops[-1][0] if ops and ops[-1][0] in ("copy", "deep-copy", "reshape", "flatten", "index", "stack", "combine", "astype", "apply", "apply-composite", "apply-pairwise") else None
+    key = repr((cls, tuple(mshape), cx, queried, aliased, producer, canon_rows(model, 5), None if raw is None else hashlib.sha1(raw.tobytes()).hexdigest()[:12]))
     return {"v": v, "t": t, "o": repr((cls, tuple(mshape), last, cx)), "nt": len(ops) > 0, "key": key, "ops": nextops}
 
 
